@@ -73,8 +73,56 @@ SplitFails(ev) ==
                     IN  Pre("concat_", DiffOn(whole, ev.A, ResidueFields \cup TermFields \cup {"labile"}))
                ELSE {})
 
+(* -------------------------------- C19 ---------------------------------- *)
+(* ev.kind in product | permutations | combinations | combinations_with_replacement; ev.size (-1 = None = n);   *)
+(* ev.res = the returned annotations (projected), in order; ev.allParse = every result re-parses to itself      *)
+Wrap(A, t) ==
+    [ A EXCEPT !.seq = [ q \in 1..Len(t) |-> A.seq[t[q]] ],
+               !.internal = InternalFrom([ q \in 0..(Len(t) - 1) |-> ModsAt(A, t[q + 1] - 1) ]),
+               !.intervals = <<>> ]
+
+CombFails(ev) ==
+    LET n == NRes(ev.A)
+        k == IF ev.size = -1 THEN n ELSE ev.size
+        want == IndexTuples(ev.kind, n, k) IN
+    (IF Len(ev.res) # ExpectedCount(ev.kind, n, k) THEN {"count_formula"} ELSE {})
+    \cup (IF Len(ev.res) # Len(want) THEN {"count"}
+          ELSE UNION { Pre("item_", Diff(ev.res[q], Wrap(ev.A, want[q]))) : q \in 1..Len(want) })
+    \cup (IF ~ev.allParse THEN {"result_does_not_reparse"} ELSE {})
+
+(* -------------------------------- C20 ---------------------------------- *)
+ModDictFails(ev) == IF ev.res # Write(ev.A, FALSE) THEN {"add_mods_of_get_mods_differs"} ELSE {}
+
+FromDictFails(ev) == Pre("rebuilt_", Diff(ev.res, ev.A)) \cup (IF ~ev.eq THEN {"rebuilt_not_equal"} ELSE {})
+
+CopyFails(ev) ==
+    Pre("copy_", Diff(ev.copy, ev.A))
+    \cup (IF ~ev.eq THEN {"copy_not_equal"} ELSE {})
+    \cup Pre("source_changed_by_editing_copy_", Diff(ev.origAfter, ev.A))
+    \cup Pre("copy_changed_by_editing_source_", Diff(ev.copyAfter, ev.A))
+    \cup (IF Diff(ev.editedCopy, ev.A) = {} THEN {"MACHINERY_edit_had_no_effect"} ELSE {})
+
+StripFails(ev) ==
+    Pre("strip_", Diff(ev.res, Strip(ev.A)))
+    \cup Pre("strip_inplace_", Diff(ev.resIn, Strip(ev.A)))
+    \cup (IF ev.text # Join(ev.A.seq) THEN {"strip_mods_text"} ELSE {})
+    \cup Pre("source_changed_", Diff(ev.origAfter, ev.A))
+
+(* real == on (A, B) and (B, A) must say what the specification's Equal says; == is reflexive *)
+EqFails(ev) ==
+    LET want == Equal(ev.A, ev.B) IN
+    (IF ev.ab # want THEN {IF want THEN "equal_annotations_compare_unequal" ELSE "different_annotations_compare_equal_" \o ev.what} ELSE {})
+    \cup (IF ev.ba # ev.ab THEN {"equality_not_symmetric"} ELSE {})
+    \cup (IF ~ev.aa THEN {"equality_not_reflexive"} ELSE {})
+
 Fails(ev) == IF ev.out # "ret" THEN {"raised_" \o ev.out}
              ELSE CASE ev.op = "reverse" -> ReverseFails(ev)
+                    [] ev.op = "comb" -> CombFails(ev)
+                    [] ev.op = "moddict" -> ModDictFails(ev)
+                    [] ev.op = "fromdict" -> FromDictFails(ev)
+                    [] ev.op = "copy" -> CopyFails(ev)
+                    [] ev.op = "strip" -> StripFails(ev)
+                    [] ev.op = "eq" -> EqFails(ev)
                     [] ev.op = "shift" -> ShiftFails(ev)
                     [] ev.op \in {"shuffle", "sort"} -> PermFails(ev)
                     [] ev.op \in {"reverse2", "shift_back", "shift_len"} -> IdentityFails(ev)
